@@ -301,7 +301,8 @@ func (e *handlerStore[T]) onSubEvent(handler T) {
 
 func (e *handlerStore[T]) offSubEvent(handler T) {
 	e.mu.Lock()
-	e.subs = removeHandlers(e.subs, handler)
+	// Sub events are removed with the very pointer they were registered with.
+	e.subs = removeHandlers(e.subs, func(a, b T) bool { return a == b }, handler)
 	e.mu.Unlock()
 }
 
@@ -309,18 +310,38 @@ func (e *handlerStore[T]) offSubEvent(handler T) {
 //
 // A new slice is built instead of removing in place while iterating,
 // which skips elements, removes wrong ones or runs out of bounds.
-func removeHandlers[T comparable](handlers []T, remove ...T) []T {
+func removeHandlers[T comparable](handlers []T, same func(a, b T) bool, remove ...T) []T {
 	kept := make([]T, 0, len(handlers))
 outer:
 	for _, h := range handlers {
 		for _, r := range remove {
-			if h == r {
+			if same(h, r) {
 				continue outer
 			}
 		}
 		kept = append(kept, h)
 	}
 	return kept
+}
+
+// Handlers are stored as pointers to function values. The `On` and `Off` methods
+// each take the address of their own copy of the function, so the pointers differ
+// even when the same function was given. In that case compare the functions
+// themselves, the same way `OffEvent` does (closures created from the same
+// function literal are indistinguishable to it).
+func sameHandler[T comparable](a, b T) bool {
+	if a == b {
+		return true
+	}
+	va, vb := reflect.ValueOf(a), reflect.ValueOf(b)
+	if va.Kind() != reflect.Ptr || vb.Kind() != reflect.Ptr || va.IsNil() || vb.IsNil() {
+		return false
+	}
+	va, vb = va.Elem(), vb.Elem()
+	if va.Kind() != reflect.Func || vb.Kind() != reflect.Func {
+		return false
+	}
+	return va.Pointer() == vb.Pointer()
 }
 
 func (e *handlerStore[T]) offSubEvents() {
@@ -345,8 +366,8 @@ func (e *handlerStore[T]) off(handler ...T) {
 		return
 	}
 
-	e.funcs = removeHandlers(e.funcs, handler...)
-	e.funcsOnce = removeHandlers(e.funcsOnce, handler...)
+	e.funcs = removeHandlers(e.funcs, sameHandler[T], handler...)
+	e.funcsOnce = removeHandlers(e.funcsOnce, sameHandler[T], handler...)
 }
 
 func (e *handlerStore[T]) offAll() {
